@@ -49,9 +49,13 @@ var c20Stmts = []string{
 	`x = 1 / zz`,
 	`nosuch()`,
 	`cast(f1, "str")`,
+	"add_key(ml, '''a\r\nb''')", // a multi-line literal spanning a CRLF line break
+	`add_key(time, 42)`,                  // a key named like the point's own time
+	`set_tag(host, "h") ; add_key(source, "s")`,
 }
 
-var c20Sib = "add_key(from_sib, 1)\nset_measurement(\"sibm\")\n"
+// the sibling is a CRLF file with a multi-line literal across a line break
+var c20Sib = "add_key(from_sib, 1)\r\nadd_key(sib_ml, \"\"\"x\r\ny\"\"\")\r\nset_measurement(\"sibm\")\r\n"
 
 const (
 	c20Other    = "add_key(from_other, 1)\n"
@@ -88,6 +92,9 @@ func c20Inputs() []c20Input {
 		{"lp-notime", "lineprotocol", "disk,t=x f1=1i,f1s=\"m3\",ts=\"nonsense\"\n"},
 		{"lp-two-points", "lineprotocol", "first f1=1i,f1s=\"a\" 1600000000000000000\nsecond f1=2i 1600000001000000000\n"},
 		{"lp-leading-comment", "lineprotocol", "# a comment line\n\nlate,host=h f1=4i,f1s=\"m4\",ts=\"2021-01-02 03:04:05\" 1600000002000000000\n"},
+		{"text-empty", "text", ""},
+		{"text-blank", "text", "  \t\r\n"},
+		{"text-multiline", "text", "first line\nsecond line\n"},
 		{"lp-newline-in-string", "lineprotocol", "multi f1=5i,f1s=\"m5\",message=\"line one\nline two\" 1600000003000000000\n"},
 	}
 }
@@ -469,7 +476,7 @@ func init() {
 		ID:    "C20",
 		Level: "model_checking",
 		Rule: "every script of <=2 (thorough <=3) statements over 16 statements (add_key with int/str/float, set_tag, drop_key, rename, set_measurement literal and from a key with delete, default_time with and without zone, use of a sibling, exit, a run-time error, a load error, cast) " +
-			"x 7 inputs (text; line protocol with tags, without tags, without timestamp, with two points, with leading comment and blank lines, with a newline inside a string field) x {workspace directory with a symlinked .p sibling, a .ppl sibling, two scripts that do not load (neither selected nor used), a non-script file and a directory named like a script; single file} x {json, lineprotocol} x {run, check only}, through the real binary " +
+			"x 10 inputs (text, empty text, blank text, multi-line text; line protocol with tags, without tags, without timestamp, with two points, with leading comment and blank lines, with a newline inside a string field) x {workspace directory with a symlinked .p sibling, a .ppl sibling, two scripts that do not load (neither selected nor used), a non-script file and a directory named like a script; single file} x {json, lineprotocol} x {run, check only}, through the real binary " +
 			"(quick: every script with a rotating 1/13 of the input x configuration grid; thorough: the full grid for <=2 statements); oracle: stdout after the marker parsed back and compared with the same script and input run through the library API (measurement, tags, fields, time), errors reported and no output block, check-only prints nothing",
 		Assumptions: []string{"the influx line-protocol codec is trusted for parsing input and output", "text input: measurement default_name is pinned; time without an explicit timestamp is accepted within the invocation's wall-clock bracket +-2 s"},
 		Run:            c20Run,
